@@ -1,5 +1,17 @@
-(* Soundness of the recovering parser with respect to the grammar of Syn/Grammar.v, and
-   nesting of source ranges.  See the summary at the end of the file. *)
+(* Soundness of the recovering parser (Syn/Parser.v) with respect to the grammar of
+   Syn/Grammar.v, and nesting of source ranges.
+
+   Main results (summary with the exact deviations at the end of the file):
+     parse_sound_as_stated_is_false, parse_sound_rejects_as_stated_is_false   (counterexample)
+     parse_sound_partial, parse_sound_rejects_partial     (extra hypothesis [values_ok toks])
+     parse_sound_scanned, parse_source_sound              (verbatim for scanned streams)
+     accepted_nested, rejected_nested, parsed_nested, within_text, accepted_nested_tiles
+
+   Method for soundness: one induction on fuel over all mutually recursive functions
+   ([sound_all]); along a run that ends with no diagnostics every function took its happy
+   branch, consumed exactly the yield of the tree it returns ([M]), and returns a tree of
+   the right level; the loop invariant of parse_binary_rest is [Pbin] (the next token does not
+   continue the left operand at its own level), its result [Qbin]. *)
 From Coq Require Import List ZArith Lia Bool Arith.
 From Formula Require Import Syn.Grammar Lex.ScanSpec.
 Import ListNotations.
@@ -1686,19 +1698,14 @@ Proof.
   (* eend e = tstart x <= tend x = to *)
   rewrite E2. clear - Ht E. subst toks. revert Ht. generalize 0.
   induction pre as [|a pre IH]; intros from Ht.
-  - change (tiles ([l; x]) from to) with
-      (tk l <> KEOF /\ tstart l = from /\ tstart l <= tpos l /\ tpos l < tend l /\
-       (tk x = KEOF /\ tstart x = tend l /\ tstart x <= tpos x /\ tpos x = tend x /\ tend x = to)) in Ht.
-    lia.
-  - destruct pre as [|b pre]; cbn [app] in *.
-    + change (tiles (a :: l :: [x]) from to) with
-        (tk a <> KEOF /\ tstart a = from /\ tstart a <= tpos a /\ tpos a < tend a /\
-         tiles [l; x] (tend a) to) in Ht.
-      destruct Ht as (_ & _ & _ & _ & Ht). exact (IH _ Ht).
-    + change (tiles (a :: b :: pre ++ [l; x]) from to) with
-        (tk a <> KEOF /\ tstart a = from /\ tstart a <= tpos a /\ tpos a < tend a /\
-         tiles (b :: pre ++ [l; x]) (tend a) to) in Ht.
-      destruct Ht as (_ & _ & _ & _ & Ht). exact (IH _ Ht).
+  - cbn [app tiles] in Ht. lia.
+  - destruct pre as [|b pre].
+    + cbn [app] in Ht, IH.
+      assert (Ht' : tiles [l; x] (tend a) to) by (cbn [tiles] in Ht; cbn [tiles]; tauto).
+      exact (IH _ Ht').
+    + cbn [app] in Ht, IH.
+      assert (Ht' : tiles (b :: pre ++ [l; x]) (tend a) to) by (cbn [tiles] in Ht; tauto).
+      exact (IH _ Ht').
 Qed.
 
 (* ====================================================================================== *)
